@@ -24,7 +24,8 @@ def run(ctx):
                 timeout=300, count=False, extra=["-seed", str(ctx.seed + 7)])
     ctx.tlc_ok("Independent_Gen", g)
     rounds = ctx.read_ndjson(os.path.join(g.dir, "rounds.ndjson"))
-    rounds.sort(key=lambda x: json.dumps(x, sort_keys=True))
+    # (the round with the destroyed environment runs early: the rounds after it show whether anything was left behind)
+    rounds.sort(key=lambda x: (0 if x["solo"] else 2 if "envX-openloss" not in x["runs"] else 1, json.dumps(x, sort_keys=True)))
     rounds = [dict(x, id=i + 1) for i, x in enumerate(rounds)]
     ctx.log("rounds: %d" % len(rounds))
     exe = ctx.build_vdrive("cont")
